@@ -111,6 +111,20 @@ def main(tier):
                 b = json.dumps(reg(u), sort_keys=True)
                 events.append({"op": "Alias", "entry": "AddCategory(valid_units=[u],default_unit=u)", "s": s, "u": u,
                                "legacy": a, "current": b, "ok": '"valid"' in a})
+
+                # the spelling first in the valid units, the base unit not among them, no explicit default unit
+                def reg2(x):
+                    o = P.outcome(db2.AddCategory, "verif tmp2", qt_of[u], valid_units=[x], override=True)
+                    if o[0] != "ok":
+                        return P.out_proj(o)
+                    du = db2.GetDefaultUnit("verif tmp2")
+                    return {"valid": db2.GetValidUnits("verif tmp2"), "du": du, "du_is_table_unit": du in qt_of,
+                            "check": P.out_proj(P.outcome(db2.CheckCategoryUnit, "verif tmp2", du)),
+                            "scalar": P.out_proj(P.outcome(lambda: __import__("barril.units").units.Scalar("verif tmp2")))}
+                a = json.dumps(reg2(s), sort_keys=True)
+                b = json.dumps(reg2(u), sort_keys=True)
+                events.append({"op": "Alias", "entry": "AddCategory(valid_units=[u]) without default unit", "s": s, "u": u,
+                               "legacy": a, "current": b, "ok": '"valid"' in a})
         finally:
             UnitDatabase.PopSingleton()
         trace = os.path.join(bd, "trace.ndjson")
